@@ -106,7 +106,7 @@ class Module:
         self.tree = ast.parse(self.source, filename=path)
         if os.environ.get('GSCAN_NO_CANON') != '1':
             from .canon import shape
-            self.tree = shape(self.tree)
+            self.tree = shape(self.tree, self.name)
         self.lines = self.source.splitlines()
         self.functions, self.classes, self.constants = {}, {}, {}
         self.imports = {}      # local name -> ('mod', modname) | ('obj', modname, objname)
